@@ -1,4 +1,5 @@
 import Dia.ServerCut
+import Dia.ResetSim
 import Dia.Hostile
 /-! # C09 - Server survives connection loss at any byte offset. Property theorems only.
 `serve` is a total function of its scripts, so "the connection's task terminates" holds by construction for the
@@ -22,6 +23,14 @@ theorem C09_read_cut (cfg : Cfg) (dict : Lookup) (frames : List Bytes) (reqs ans
   have hc := Codec.decode_cut cfg dict evs' f m q g2 hf hq g1
   rw [g4, serve]
   simp [hc, ServeLog.prepend]
+
+/-- **C09, reset instead of close.** Whether the peer's stream ends with an orderly close or with a read error
+(connection reset), at whatever point of whatever script: the handler calls and the octets written are the same.
+Together with `C09_read_cut` this covers a reset at any byte offset. -/
+theorem C09_reset_like_close (cfg : Cfg) (dict : Lookup) (hs : List HRes) (evs : List REv) (w : List WEv) :
+    (serve cfg dict hs (toEof evs) w).calls = (serve cfg dict hs evs w).calls ∧
+    (serve cfg dict hs (toEof evs) w).written = (serve cfg dict hs evs w).written :=
+  serve_toEof cfg dict hs evs w
 
 /-- **C09, write side.** With the requests arriving intact and a write side that may stall, accept partially and fail
 at any offset of any answer: the handler has been called for a prefix `reqs.take k` of the requests; the answers to
